@@ -498,7 +498,10 @@ func init() {
 		}
 		wg.Wait()
 		for i := range results {
-			// the replay needs the edits, not the bulk: drop nothing, but never echo raw base content
+			// the replay needs the edits; raw bytes are echoed only for failures
+			if results[i].Class == "ok" || results[i].Class == "error" {
+				results[i].Raw = ""
+			}
 			c.Emit(results[i])
 		}
 		return nil
